@@ -23,6 +23,7 @@ import (
 	"github.com/taurusgroup/multi-party-sig/pkg/protocol"
 	"github.com/taurusgroup/multi-party-sig/protocols/cmp"
 	cmpconfig "github.com/taurusgroup/multi-party-sig/protocols/cmp/config"
+	"github.com/taurusgroup/multi-party-sig/protocols/cmp/presign"
 	"github.com/taurusgroup/multi-party-sig/protocols/doerner"
 	"github.com/taurusgroup/multi-party-sig/protocols/example"
 	"github.com/taurusgroup/multi-party-sig/protocols/frost"
@@ -195,6 +196,16 @@ func CmpPresign(cfgs map[party.ID]interface{}, signers []party.ID, sid []byte) *
 	s := &Session{Name: "cmp-presign", IDs: sorted(signers), Makers: map[party.ID]Maker{}}
 	for _, id := range signers {
 		s.Makers[id] = multi(func() protocol.StartFunc { return cmp.Presign(cfgs[id].(*cmp.Config), signers, Pool) }, sid)
+	}
+	return s
+}
+
+// CmpPresignFull session: presigning WITH the message (protocols/cmp/presign.StartPresign, the mode the library's own
+// presign tests drive): seven presign rounds followed by the signing round.
+func CmpPresignFull(cfgs map[party.ID]interface{}, signers []party.ID, msg []byte, sid []byte) *Session {
+	s := &Session{Name: "cmp-presign-full", IDs: sorted(signers), Makers: map[party.ID]Maker{}}
+	for _, id := range signers {
+		s.Makers[id] = multi(func() protocol.StartFunc { return presign.StartPresign(cfgs[id].(*cmp.Config), signers, msg, Pool) }, sid)
 	}
 	return s
 }
